@@ -11,6 +11,13 @@ inside a flat group; after that newline, groups / fill items / always_break insi
 """
 from prettyprinter.sdoctypes import SAnnotationPop, SAnnotationPush, SLine
 
+from .docs import Ann
+
+
+def _same_label(stream_value, label):
+    want = Ann.OBJS.get(label, label) if isinstance(label, str) else label
+    return stream_value is want
+
 BREAK, FLAT, ANY = 0, 1, 2    # ANY: lenient only - remainder of a flat scope after a bare hardline was rendered in it
 
 
@@ -68,7 +75,7 @@ class Stream:
             if it[0] == 'push':
                 st.append(it[1])
             elif it[0] == 'pop':
-                if not st or st[-1] is not it[1] and st[-1] != it[1]:
+                if not st or st[-1] is not it[1]:
                     return False
                 st.pop()
         return not st
@@ -195,7 +202,7 @@ class Matcher:
                 stack = rest
                 continue
             if k == '$pop':
-                if pos < len(items) and items[pos][0] == 'pop' and (items[pos][1] is t[1] or items[pos][1] == t[1]):
+                if pos < len(items) and items[pos][0] == 'pop' and _same_label(items[pos][1], t[1]):
                     stack, pos = rest, pos + 1
                     continue
                 self.dead.add(key)
@@ -249,7 +256,7 @@ class Matcher:
                 stack = self.push((t[2], mode, self.st.col[pos] + t[1], fl), rest)
                 continue
             if k == 'ann':
-                if pos < len(items) and items[pos][0] == 'push' and (items[pos][1] is t[1] or items[pos][1] == t[1]):
+                if pos < len(items) and items[pos][0] == 'push' and _same_label(items[pos][1], t[1]):
                     rest = self.push((('$pop', t[1]), mode, ind, fl), rest)
                     stack, pos = self.push((t[2], mode, ind, fl), rest), pos + 1
                     continue
